@@ -28,6 +28,7 @@ const (
 type vDbg struct {
 	log        []int
 	scribble   bool
+	fill       byte // what the scribbling debugger writes over every stack byte of a snapshot (symbolic)
 	afterOp    [][]byte // copy of the data stack seen by the last AfterExecuteOpcode
 	haveAfter  bool
 	afterStepD [][]byte
@@ -58,7 +59,7 @@ func (d *vDbg) see(ev int, s *State) {
 		for _, stk := range [][][]byte{s.DataStack, s.AltStack, s.ElseStack, s.SavedFirstStack} {
 			for _, it := range stk {
 				for i := range it {
-					it[i] ^= 0xA5
+					it[i] = d.fill
 				}
 			}
 		}
@@ -185,7 +186,7 @@ func VH_C19_Step() {
 	if !ok {
 		return
 	}
-	dbg := &vDbg{scribble: true}
+	dbg := &vDbg{scribble: true, fill: vnondetU8("scribble-fill")}
 	td := vcloneThread(th, dbg)
 	done1, err1 := th.Step()
 	done2, err2 := td.Step()
@@ -218,7 +219,7 @@ func VH_C19_Execute() {
 	ls2, us2 := bscript.Script(vcopy(lsb)), bscript.Script(vcopy(usb))
 	flags := []scriptflag.Flag{0, scriptflag.UTXOAfterGenesis, scriptflag.Bip16 | scriptflag.VerifyCleanStack | scriptflag.VerifyMinimalData}[vnondetLen("flagset", 0, 2)]
 	err1 := NewEngine().Execute(WithScripts(&ls, &us), WithFlags(flags))
-	dbg := &vDbg{scribble: true}
+	dbg := &vDbg{scribble: true, fill: vnondetU8("scribble-fill")}
 	err2 := NewEngine().Execute(WithScripts(&ls2, &us2), WithFlags(flags), WithDebugger(dbg))
 	vassert(verrCode(err1) == verrCode(err2), "C19: Execute verdict unchanged by a debugger")
 	// lifecycle: execute > (step > opcode...)* > success | error
@@ -297,9 +298,19 @@ func VH_C19_P2SH() {
 		flags |= scriptflag.VerifyCleanStack
 	}
 	err1 := NewEngine().Execute(WithScripts(&ls, &us), WithFlags(flags))
-	dbg := &vDbg{scribble: true}
+	dbg := &vDbg{scribble: true, fill: vnondetU8("scribble-fill")}
 	err2 := NewEngine().Execute(WithScripts(&ls2, &us2), WithFlags(flags), WithDebugger(dbg))
 	vassert(verrCode(err1) == verrCode(err2), "C19: P2SH verdict unchanged by a scribbling debugger")
+	nTerm := 0
+	for _, e := range dbg.log {
+		if e == evAfterSuccess || e == evAfterError {
+			nTerm++
+		}
+	}
+	if len(dbg.log) > 0 {
+		last := dbg.log[len(dbg.log)-1]
+		vassert(nTerm == 1 && ((err2 == nil && last == evAfterSuccess) || (err2 != nil && last == evAfterError)), "C19: P2SH run ends with exactly one success-or-error callback")
+	}
 	vassert(!dbg.badSnap, "C19: every snapshot describes the running thread")
 	if err1 == nil {
 		vreach("c19-p2sh-accepted")
